@@ -128,7 +128,7 @@ Up(s) ==
     [] p.k = "cb" ->
          IF IsFailureX(p.h, pr.r, pr.e)
          THEN LET s1 == Ev(s, "OnFailure", i, last, <<>>)
-                  r == BO(p.cfg)!Record(s1.pol[p.id], FALSE, s.now)
+                  r == BO(p.cfg)!RecordD(s1.pol[p.id], FALSE, s.now, DfnOf(p))      \* the delay function (if any) is asked about this failure
               IN Ret(AddBrEvents([s1 EXCEPT !.pol[p.id] = r.b], i, r.ev), i - 1, WithFailure(pr))
          ELSE LET s1 == Ev(s, "OnSuccess", i, last, <<>>)
                   r == BO(p.cfg)!Record(s1.pol[p.id], TRUE, s.now)
